@@ -70,9 +70,14 @@ func (d *DIDDocResolver) Resolve(kid string) (*crypto.PublicKey, error) {
 		if err != nil {
 			return nil, err
 		}
+
+		if pubKey != nil {
+			// first matching keyAgreement entry: later, non matching entries must not reset the result.
+			return pubKey, nil
+		}
 	}
 
-	return pubKey, nil
+	return nil, fmt.Errorf("didDocResolver: kid '%v' not found in the DID doc's keyAgreement", kid)
 }
 
 func extractKey(kid, keyAgreementID string, ka *did.Verification) (*crypto.PublicKey, error) {
